@@ -308,23 +308,33 @@ def _tables() -> dict:
             and isinstance(e.args[0], (ast.Tuple, ast.List, ast.Set))):
         raise T.Unsupported("_NON_NUMPY_NATIVE_TYPES is not frozenset((...))")
     out["non_native"] = [dm(x) for x in e.args[0].elts]
-    s = _dt_sets_in(T.find_function(core, "_create_np_array_for_byte_representation"), members)
-    if len(s) != 2:
-        raise T.Unsupported(f"_create_np_array_for_byte_representation: expected 2 dtype sets, found {len(s)}")
-    out["bytes_pack4"], out["bytes_pack2"] = s
-    s = _dt_sets_in(T.find_function(core, "ExternalTensor._load"), members)
-    if len(s) != 1:
-        raise T.Unsupported(f"ExternalTensor._load: expected 1 dtype set, found {len(s)}")
-    out["ext_subbyte"] = s[0]
     serde = T._src(SERDE)
-    s = _dt_sets_in(T.find_function(serde, "TensorProtoTensor.numpy"), members)
-    if len(s) != 5:
-        raise T.Unsupported(f"TensorProtoTensor.numpy: expected 5 dtype sets, found {len(s)}")
-    (out["pn_int32"], out["pn_int64"], out["pn_uint64"], out["pn_float"], out["pn_double"]) = s
-    s = _dt_sets_in(T.find_function(serde, "TensorProtoTensor.tobytes"), members)
-    if len(s) != 2:
-        raise T.Unsupported(f"TensorProtoTensor.tobytes: expected 2 dtype sets, found {len(s)}")
-    out["pb_16"], out["pb_8"] = s
+    # dispatch sets of the code.  When a function no longer has the expected `dtype in {...}` tests the generation
+    # fails closed (errors), but the harness keeps going with the sets the ONNX storage rules imply, so that the oracle
+    # can still produce a concrete failing input.
+    bwm = dict(out["bitwidth"])
+    val = members
+    i32 = [v for v, b in bwm.items() if b <= 32 and v not in (val["FLOAT"], val["UINT32"])]
+    fallback = {"bytes_pack4": [v for v, b in bwm.items() if b == 4], "bytes_pack2": [v for v, b in bwm.items() if b == 2],
+                "ext_subbyte": [v for v, b in bwm.items() if b < 8], "pn_int32": i32, "pn_int64": [val["INT64"]],
+                "pn_uint64": [val["UINT64"], val["UINT32"]], "pn_float": [val["FLOAT"], val["COMPLEX64"]],
+                "pn_double": [val["DOUBLE"], val["COMPLEX128"]], "pb_16": [v for v in i32 if bwm[v] == 16],
+                "pb_8": [v for v in i32 if bwm[v] <= 8]}
+    out.setdefault("errors", [])
+    for src_mod, qual, keys in ((core, "_create_np_array_for_byte_representation", ["bytes_pack4", "bytes_pack2"]),
+                                (core, "ExternalTensor._load", ["ext_subbyte"]),
+                                (serde, "TensorProtoTensor.numpy", ["pn_int32", "pn_int64", "pn_uint64", "pn_float", "pn_double"]),
+                                (serde, "TensorProtoTensor.tobytes", ["pb_16", "pb_8"])):
+        try:
+            got = _dt_sets_in(T.find_function(src_mod, qual), members)
+            if len(got) != len(keys):
+                raise T.Unsupported(f"{qual}: expected {len(keys)} dtype sets, found {len(got)}")
+            for k_, g_ in zip(keys, got):
+                out[k_] = g_
+        except T.Unsupported as e:
+            out["errors"].append(str(e))
+            for k_ in keys:
+                out[k_] = fallback[k_]
     out["np_itemsize_env"] = [(k, np_itemsize(k)) for k, _ in out["np"]]
     return out
 
@@ -854,6 +864,13 @@ def build(spec: dict, workdir: str, tag: str = "t") -> Built:
                 t = ir.Tensor(big[::2][:len(xs)].reshape(shape), name=tag)
             elif var == "ir.tensor":
                 t = ir.tensor(a, dtype=dt, name=tag)
+            elif var == "ir.tensor_nodtype":       # ir.tensor(ndarray) without dtype (rank 0 included)
+                t = ir.tensor(a, name=tag)
+            elif var in ("np_scalar", "np_scalar_Tensor"):   # a numpy scalar (np.generic): shape must be ()
+                sc = a.reshape(())[()]
+                if not isinstance(sc, np.generic) or shape:
+                    raise AssertionError("harness: not a numpy scalar")
+                t = ir.tensor(sc, name=tag) if var == "np_scalar" else ir.Tensor(sc, name=tag)
             elif var in ("byteswapped", "byteswapped_dtype", "byteswapped_ir.tensor"):
                 # same values in an array of the non-native byte order: rejected (TypeError) or little-endian bytes
                 term = f"(RArray {cdt} {cshape} {nl(store)})"
@@ -1507,6 +1524,11 @@ def gen_pyvalues(ck) -> list[dict]:
                 specs.append({"dtype": name, "shape": shape, "bits": pylist_reference_bits(ir, name, vals, shape), "rep": "array",
                               "params": {"variant": "pylist", "values": [py_encode(v) for v in vals]},
                               "order": rng.choice(ORDERS), "dests": gen_dests(rng, ref_nbytes(name, n), full=False)})
+            # (a') rank-0 numpy arrays and numpy scalars through ir.tensor() / ir.Tensor(): shape must stay ()
+            for var in ("ir.tensor", "ir.tensor_nodtype", "np_scalar", "np_scalar_Tensor", "ml", "fortran", "strided"):
+                specs.append({"dtype": name, "shape": [], "bits": gen_bits(rng, name, 1, modes[r % 3]), "rep": "array",
+                              "params": {"variant": var}, "order": rng.choice(ORDERS),
+                              "dests": gen_dests(rng, ref_nbytes(name, 1), full=False)})
             # (b) narrow float types: doubles next to every kind of rounding decision
             if name in FLOATS and bw < 32:
                 for _ in range(4):
